@@ -10,6 +10,11 @@ Independent specification of C09, written from the property text (it shares only
 * "the very object they were given" is whatever object is handed in — a fresh function, or one that was handed to a
   decorator before (`redecorate` / `reapply`): only the present value of the variable matters, not the object's past.
 
+* "already decorated callables" are the members of a decorated class too, by whatever route they are reached: a class
+  created later as a sub class of a decorated class inherits the members *as they were decided when the base class was
+  decorated* — through the sub class or through one of its instances, instance methods, class methods, static methods and
+  properties alike, whether the sub class is used for the first time before or after the variable changes.
+
 Other values of the variable are not claimed (`unclaimed`).
 -/
 namespace PedVerif.Switch
@@ -94,6 +99,27 @@ def specCall (h : SHandle) (k : CallKind) : SObs :=
   | .dead => .exact .bad
   | .unclaimed => .unclaimed
 
+/-- one form of access only for a property -/
+def specKind (m : Member) (k : CallKind) : CallKind :=
+  match m with
+  | .propGet | .propSet => (match k with | .positional => .good | k => k)
+  | _ => k
+
+/-- a member of a class, reached through the class object or an instance.  Not claimed here: a class method / static method
+    of a class whose members were wrapped by trace / timer / a foreign decorator, called through an instance (what
+    `for_all_methods` does to the binding of such members is the subject of C18, whatever the switch says). -/
+def specCallM (h : SHandle) (m : Member) (v : Via) (k : CallKind) : SObs :=
+  match h with
+  | .identity => .exact (.called false false false)
+  | .active .checks => .exact (.called (match specKind m k with | .good => false | _ => true) false false)
+  | .active e =>
+    match m, v with
+    | .classMethod, .inst => .unclaimed
+    | .staticMethod, .inst => .unclaimed
+    | _, _ => (match e with | .marks => .exact (.called false false true) | _ => .exact (.called false true false))
+  | .dead => .exact .bad
+  | .unclaimed => .unclaimed
+
 def specStep (s : SSt) : Op → SSt × SObs
   | .setenv v => ({ s with env := some v }, .exact .none)
   | .unsetenv => ({ s with env := none }, .exact .none)
@@ -114,6 +140,21 @@ def specStep (s : SSt) : Op → SSt × SObs
     match s.handles[h]? with
     | none => (s, .exact .bad)
     | some hd => (s, specCall hd k)
+  | .subclass h =>
+    -- a sub class inherits what was decided for its base; a function, or a decoration that produced nothing, has no sub class
+    match s.handles[h]?, s.targets[h]? with
+    | some hd, some (some t) =>
+      if t.isClass then
+        srecord (some t) (match hd with
+          | .dead => (spush s .dead, .exact .bad)
+          | .unclaimed => (spush s .unclaimed, .unclaimed)
+          | hd => (spush s hd, .exact .derived))
+      else srecord none (spush s .dead, .exact .bad)
+    | _, _ => srecord none (spush s .dead, .exact .bad)
+  | .callm h m v k =>
+    match s.handles[h]?, s.targets[h]? with
+    | some hd, some (some t) => if hasMember t m then (s, specCallM hd m v k) else (s, .exact .bad)
+    | _, _ => (s, .exact .bad)
 
 def specRun (s : SSt) : List Op → List SObs
   | [] => []
